@@ -15,6 +15,7 @@ import (
 	"errors"
 	"fmt"
 	"math/big"
+	"sync"
 	"testing"
 
 	"github.com/cloudflare/circl/hpke"
@@ -720,4 +721,130 @@ func TestC08(t *testing.T) {
 			vlib.Check(t, vlib.N(1000, 2500), func(t *rapid.T) { history(t, a, sub) })
 		})
 	}
+}
+
+// ---------------------------------------------------------------------------
+// Concurrent plan: N independent sealer/opener pairs (fresh ones from Setup and ones restored from hand-made encodings at
+// structured sequence numbers, all three AEADs), each pair used by its own goroutine only — ordinary legitimate use, no
+// object is shared. Every ciphertext is compared with the independent AEAD computation under base_nonce XOR (start + i)
+// and opened by the pair's opener. Contexts that do not share anything cannot influence each other, so the verdict on a
+// correct implementation does not depend on the schedule. The same test is also built with -race (binary c08race).
+
+type concPair struct {
+	name      string
+	sealer    hpke.Sealer
+	opener    hpke.Opener
+	aead      cipher.AEAD
+	bn        []byte
+	start     *big.Int
+	failKey   string
+	failDescr string
+}
+
+func TestC08Concurrent(t *testing.T) {
+	defer vlib.Done()
+	const sub = "concurrent"
+	msgs := vlib.N(20000, 100000)
+	starts := []*big.Int{big.NewInt(0), big.NewInt(250), new(big.Int).Sub(new(big.Int).Lsh(one, 32), big.NewInt(5000)),
+		new(big.Int).Sub(new(big.Int).Lsh(one, 64), big.NewInt(7)), new(big.Int).Lsh(one, 95), new(big.Int).Sub(maxSeq, big.NewInt(int64(msgs/2)))}
+	var pairs []*concPair
+	for i := 0; i < 12; i++ {
+		aeadID := []uint16{rhpke.AEADAES128, rhpke.AEADAES256, rhpke.AEADChaCha}[i%3]
+		kemID := []uint16{rhpke.KEMX25519, rhpke.KEMP256}[(i/3)%2]
+		kdfID := []uint16{rhpke.KDFSHA256, rhpke.KDFSHA384, rhpke.KDFSHA512}[(i/2)%3]
+		cs := hpke.NewSuite(hpke.KEM(kemID), hpke.KDF(kdfID), hpke.AEAD(aeadID))
+		sch := hpke.KEM(kemID).Scheme()
+		ikm := make([]byte, sch.SeedSize())
+		vlib.ExpandInto(ikm, uint64(vlib.Seed)*1009+uint64(vlib.Shard)*101+uint64(i))
+		pkR, skR := sch.DeriveKeyPair(ikm)
+		snd, _ := cs.NewSender(pkR, []byte{byte(i)})
+		rcv, _ := cs.NewReceiver(skR, []byte{byte(i)})
+		enc, sl, err := snd.Setup(vlib.NewReader(uint64(vlib.Seed)*7919 + uint64(vlib.Shard)*31 + uint64(i)))
+		if err != nil {
+			t.Fatalf("Sender.Setup: %v", err)
+		}
+		op, err := rcv.Setup(enc)
+		if err != nil {
+			t.Fatalf("Receiver.Setup: %v", err)
+		}
+		rawS, _ := sl.MarshalBinary()
+		rawO, _ := op.MarshalBinary()
+		fS, e1 := parseCtx(rawS)
+		fO, e2 := parseCtx(rawO)
+		if e1 != nil || e2 != nil {
+			t.Fatalf("marshal layout: %v %v", e1, e2)
+		}
+		a, err := rhpke.NewAEAD(aeadID, fS.key)
+		if err != nil {
+			t.Fatalf("stdlib AEAD: %v", err)
+		}
+		p := &concPair{name: fmt.Sprintf("pair%d(aead%d,fresh)", i, aeadID), sealer: sl, opener: op, aead: a, bn: fS.bn, start: big.NewInt(0)}
+		if i >= 4 { // restored pairs, continued at a structured sequence number
+			p.start = starts[(i-4)%len(starts)]
+			fS.seq, fO.seq = seqBytes(p.start), seqBytes(p.start)
+			if p.sealer, err = hpke.UnmarshalSealer(fS.marshal()); err != nil {
+				t.Fatalf("UnmarshalSealer: %v", err)
+			}
+			if p.opener, err = hpke.UnmarshalOpener(fO.marshal()); err != nil {
+				t.Fatalf("UnmarshalOpener: %v", err)
+			}
+			p.name = fmt.Sprintf("pair%d(aead%d,restored@%x)", i, aeadID, fS.seq)
+		}
+		pairs = append(pairs, p)
+	}
+	var wg sync.WaitGroup
+	gate := make(chan struct{})
+	for pi, p := range pairs {
+		wg.Add(1)
+		go func(pi int, p *concPair) {
+			defer wg.Done()
+			<-gate
+			seq := new(big.Int).Set(p.start)
+			pt := make([]byte, 24)
+			aad := make([]byte, 5)
+			for i := 0; i < msgs; i++ {
+				pt[0], pt[1], pt[2], pt[23] = byte(i), byte(i>>8), byte(i>>16), byte(pi)
+				aad[0], aad[4] = byte(i), byte(pi)
+				n := len(pt) - i%7
+				ct, err := p.sealer.Seal(pt[:n], aad)
+				if seq.Cmp(maxSeq) >= 0 {
+					if err == nil || ct != nil {
+						p.failKey, p.failDescr = "C08/concurrent/overflow", fmt.Sprintf("%s message %d: Seal at 2^96-1 gives err=%v ct=%x", p.name, i, err, ct)
+					}
+					return
+				}
+				if err != nil {
+					p.failKey, p.failDescr = "C08/concurrent/seal-error", fmt.Sprintf("%s message %d: %v", p.name, i, err)
+					return
+				}
+				want := p.aead.Seal(nil, rhpke.ComputeNonce(p.bn, seq), pt[:n], aad)
+				if !bytes.Equal(ct, want) {
+					p.failKey = "C08/concurrent/seal-nonce"
+					p.failDescr = fmt.Sprintf("%s message %d (seq %x): ciphertext %x is not AEAD.Seal(key, base_nonce XOR seq, pt, aad) = %x, although the context is used by one goroutine only", p.name, i, seqBytes(seq), ct, want)
+					return
+				}
+				got, err := p.opener.Open(ct, aad)
+				if err != nil || !bytes.Equal(got, pt[:n]) {
+					p.failKey = "C08/concurrent/open"
+					p.failDescr = fmt.Sprintf("%s message %d (seq %x): the pair's opener refuses the genuine in-order ciphertext: %v", p.name, i, seqBytes(seq), err)
+					return
+				}
+				seq.Add(seq, one)
+			}
+		}(pi, p)
+	}
+	close(gate)
+	wg.Wait()
+	for i, p := range pairs {
+		vlib.Eval(sub)
+		if p.failKey != "" {
+			if !vlib.ReportDirect(t, p.failKey, p.failDescr, map[string]interface{}{"pair": p.name, "messages": msgs}) {
+				return
+			}
+			continue
+		}
+		vlib.Class(sub, "pair-ok")
+		vlib.NonTrivial(sub, "", []byte{byte(i), byte(vlib.Shard)}, p.bn)
+	}
+	vlib.ClassN(sub, "messages-per-pair", int64(msgs))
 }
